@@ -99,13 +99,10 @@ func compareScalars(context Context, prefs compareTypePref, lhs *CandidateNode, 
 		return lhsNum < rhsNum, nil
 	} else if (lhsTag == "!!int" || lhsTag == "!!float") && (rhsTag == "!!int" || rhsTag == "!!float") {
 		// compare exactly, the way sort does: not every int64 fits a float64
-		lhsNum, lhsNaN, err := sortableNumber(lhs, lhsTag)
-		if err != nil {
-			return false, err
-		}
-		rhsNum, rhsNaN, err := sortableNumber(rhs, rhsTag)
-		if err != nil {
-			return false, err
+		lhsNum, lhsNaN, lhsIsNumber := sortableNumber(lhs, lhsTag)
+		rhsNum, rhsNaN, rhsIsNumber := sortableNumber(rhs, rhsTag)
+		if !lhsIsNumber || !rhsIsNumber {
+			return false, fmt.Errorf("cannot compare %v with %v, they are not both numbers", lhs.Value, rhs.Value)
 		}
 		if lhsNaN || rhsNaN {
 			return false, fmt.Errorf("%v not yet supported for comparison", ".nan")
